@@ -6,6 +6,7 @@ import (
 	"context"
 	"flag"
 	"fmt"
+	"io"
 	"net/http"
 	"net/http/httptest"
 	"os"
@@ -20,6 +21,7 @@ import (
 	legacyindex "github.com/rpcpool/yellowstone-faithful/deprecated/compactindex"
 	hugecache "github.com/rpcpool/yellowstone-faithful/huge-cache"
 	"github.com/rpcpool/yellowstone-faithful/indexes"
+	splitcarfetcher "github.com/rpcpool/yellowstone-faithful/split-car-fetcher"
 	"github.com/rpcpool/yellowstone-faithful/zzverif/cargen"
 	"github.com/urfave/cli/v2"
 	"github.com/valyala/fasthttp"
@@ -311,6 +313,70 @@ func vkPadForTxPayload(target int) (int, bool) {
 		pad -= got - target
 	}
 	return 0, false
+}
+
+// vkSplitAndConfig splits the epoch's CAR with the repository's own split-car action (target piece size `size`),
+// and writes a config that serves the epoch from those pieces: data.car.from_pieces with the metadata YAML the
+// action wrote and a piece-CID -> URL map pointing at remoteBase (vkServeFiles). Returns the config path and the
+// number of pieces. Must not run concurrently with anything that depends on the working directory (the action
+// writes its YAML into the current directory).
+func (e *vEpoch) vkSplitAndConfig(size int64, remoteBase string, o vkConfigOpts) (string, int, error) {
+	dir := filepath.Join(e.Dir, "split")
+	out := filepath.Join(dir, "out")
+	if err := os.MkdirAll(out, 0o755); err != nil {
+		return "", 0, err
+	}
+	wd, err := os.Getwd()
+	if err != nil {
+		return "", 0, err
+	}
+	if err := os.Chdir(dir); err != nil {
+		return "", 0, err
+	}
+	app := &cli.App{Name: "faithful-cli", Commands: []*cli.Command{newCmd_SplitCar()}, Writer: io.Discard, ErrWriter: io.Discard,
+		ExitErrHandler: func(*cli.Context, error) {}}
+	runErr := app.Run([]string{"faithful-cli", "split-car", "--size", fmt.Sprint(size), "--epoch", fmt.Sprint(e.Truth.Epoch),
+		"--metadata", filepath.Join(dir, "metadata.csv"), "--output-dir", out, e.CarPath})
+	os.Chdir(wd)
+	if runErr != nil {
+		return "", 0, fmt.Errorf("split-car: %w", runErr)
+	}
+	yamlPath := filepath.Join(dir, fmt.Sprintf("epoch-%d-metadata.yaml", e.Truth.Epoch))
+	meta, err := splitcarfetcher.MetadataFromYaml(yamlPath)
+	if err != nil || meta.CarPieces == nil || len(meta.CarPieces.CarPieces) == 0 {
+		return "", 0, fmt.Errorf("metadata %s unreadable or empty: %v", yamlPath, err)
+	}
+	get := func(role, def string) string {
+		if v, ok := o.Overrides[role]; ok {
+			return v
+		}
+		return def
+	}
+	var b strings.Builder
+	fmt.Fprintf(&b, "version: 1\nepoch: %d\ndata:\n  car:\n    from_pieces:\n      metadata:\n        uri: %q\n      piece_to_uri:\n", e.Truth.Epoch, yamlPath)
+	for _, pc := range meta.CarPieces.CarPieces {
+		pp := pc.Name
+		if !filepath.IsAbs(pp) {
+			pp = filepath.Join(out, pp)
+		}
+		fmt.Fprintf(&b, "        %s:\n          uri: %q\n", pc.CommP.String(), remoteBase+pp)
+	}
+	fmt.Fprintf(&b, "indexes:\n  cid_to_offset_and_size:\n    uri: %q\n", get("cid_to_offset_and_size", e.Paths.CidToOffsetAndSize))
+	fmt.Fprintf(&b, "  slot_to_cid:\n    uri: %q\n", get("slot_to_cid", e.Paths.SlotToCid))
+	fmt.Fprintf(&b, "  sig_to_cid:\n    uri: %q\n", get("sig_to_cid", e.Paths.SignatureToCid))
+	fmt.Fprintf(&b, "  sig_exists:\n    uri: %q\n", get("sig_exists", e.Paths.SignatureExists))
+	fmt.Fprintf(&b, "  slot_to_blocktime:\n    uri: %q\n", get("slot_to_blocktime", e.Paths.SlotToBlocktime))
+	if g := get("gsfa", e.GsfaDir); g != "" && !o.NoGsfa {
+		fmt.Fprintf(&b, "  gsfa:\n    uri: %q\n", g)
+	}
+	if e.Truth.Epoch == 0 {
+		fmt.Fprintf(&b, "genesis:\n  uri: %q\n", vkGenesisPath())
+	}
+	p := filepath.Join(e.Dir, "config-from-pieces.yml")
+	if err := os.WriteFile(p, []byte(b.String()), 0o644); err != nil {
+		return "", 0, err
+	}
+	return p, len(meta.CarPieces.CarPieces), nil
 }
 
 // vkDrain waits (bounded) until the goroutines started by earlier requests have finished: FirstSuccess returns at
